@@ -90,6 +90,9 @@ Definition tstep {A} (c : tcfg) (s : tbst A) (te : cev A) : tbst A :=
       | PIdle =>
           if t_chan (tm b) then
             let t1 := t_recv (tm b) in
+            if fixed_S28 (tc c) && (cur b =? 0)
+            then mk_tbst (mk_bst (queue b) (cur b) t1 (pend b) (committed b) (tlog b) PIdle false (accepted b) (refused b)) i
+            else
             if ok then mk_tbst (mk_bst (queue b) 0 t1 [] (committed b ++ [pend b]) (tlog b) PIdle false (accepted b) (refused b))
                                (mk_ti (now i) (twhen i) [] None (fired_at i))
             else if fixed_S2 (tc c)
@@ -99,6 +102,8 @@ Definition tstep {A} (c : tcfg) (s : tbst A) (te : cev A) : tbst A :=
           else s
       | PCommit => s
       end
+  | Ev (Reject it) =>
+      mk_tbst (mk_bst (queue b) (cur b) (tm b) (pend b) (committed b) (tlog b) (pc b) (blocked b) (accepted b) (refused b ++ [it])) i
   end.
 
 Definition trun_from {A} (c : tcfg) (s : tbst A) (tes : list (cev A)) : tbst A := fold_left (tstep c) tes s.
